@@ -52,7 +52,7 @@ Lemma create_outcome f now s ps ts ref md amd force ik dry :
   | SPanic => False
   end.
 Proof.
-  intros Hik Hne. unfold step. cbn [o_ik o_in o_dry]. rewrite Hik. cbn [run_input].
+  intros Hik Hne. unfold step. cbn [o_ik o_in o_dry]. rewrite Hik. cbn [run_input]. unfold create_tx.
   destruct ps as [|p ps']; [contradiction|].
   destruct (feasible force (s_vols s) (p :: ps')) eqn:Fe; cbn [negb].
   - destruct (commit_transaction f now s (p :: ps') md ts ref) as [s1 [t|]] eqn:E.
